@@ -2,7 +2,7 @@
    Model: Model/HeadShift.v, a model of ShiftFormula (theory/head.py): shifting a head formula from its origin step s to
    the current step s+d, with until/release unrolled and parts behind the current step read classically. *)
 From Coq Require Import List Bool Arith ZArith Lia.
-Require Import GenPrelude TheoryPrelude FormPrelude FromHeadForm FromHeadRanges HT TEL Laws HeadShift HeadComplete HeadForm TheorySem BodyTheoryFull HeadRulesProofs IntervalSet IntervalProofs HeadRanges RangesCover.
+Require Import GenPrelude TheoryPrelude FormPrelude FromHeadForm FromHeadRanges HT TEL Laws HeadShift HeadComplete HeadForm TheorySem BodyTheoryFull HeadRulesProofs IntervalSet IntervalProofs HeadRanges RangesCover HeadDomain HeadDomainProofs.
 (* at the origin step the shifted formula is classically the formula itself *)
 Theorem C04_shift_origin_classical : forall (A : Type) (h : nat) (T : trace A) (p : hf A) (k : nat), k <= h ->
   ssat A h T T (shift A p 0) k = csat A h T p k.
@@ -83,6 +83,11 @@ Proof. exact rules_at_total. Qed.
 Theorem C04_ranges_cover_every_head_atom : forall (A : Type) (p : hf A) (d : nat) (a : A),
   In a (head_atoms A (shift A p d)) -> exists r, In (a, r) (ranges A p (0, Some 0)) /\ within d r.
 Proof. exact ranges_cover. Qed.
+(* ... and so do the entries of the domain rule as it is emitted: the ranges of every atom merged by IntervalSet (bounded and unbounded ones alike);
+   the entries of the extracted model are compared with the conditional literals of the rule telingo writes on every run *)
+Theorem C04_domain_rule_covers_every_head_atom : forall (A : Type) (eqA : A -> A -> bool), (forall a b, eqA a b = true <-> a = b) ->
+  forall (p : hf A) (d : nat) (a : A), In a (head_atoms A (shift A p d)) -> exists e, In e (entries A eqA p) /\ fst e = a /\ covers A d e.
+Proof. exact domain_covers. Qed.
 (* IntervalSet (comparison, union and emptiness test of Interval REGENERATED): add keeps the intervals sorted, non-empty and separated
    and adds exactly the points of the new interval; a set built from a list of intervals contains exactly the points of its members *)
 Theorem C04_interval_set_add : forall (l : list iv) (y : iv), wf l -> wf (add y l) /\ forall z, mem z (add y l) = inb z y || mem z l.
@@ -105,5 +110,6 @@ Print Assumptions C04_rule_body_formula_negates_the_shifted_part.
 Print Assumptions C04_rules_of_a_state_mean_the_shifted_formula.
 Print Assumptions C04_every_clause_becomes_a_rule.
 Print Assumptions C04_ranges_cover_every_head_atom.
+Print Assumptions C04_domain_rule_covers_every_head_atom.
 Print Assumptions C04_interval_set_add.
 Print Assumptions C04_interval_set_of_list.
